@@ -106,8 +106,24 @@ pub trait NodeMut {
     ) -> error::Result<XmlNode>;
 
     fn replace_child(&self, new_child: XmlNode, old_child: &XmlNode) -> error::Result<XmlNode> {
-        self.insert_before(new_child, Some(old_child))?;
-        self.remove_child(old_child)
+        if new_child.id() == old_child.id() {
+            // A child that replaces itself stays where it is.
+            return self.insert_before(new_child, Some(old_child));
+        }
+
+        let mut next = old_child.next_sibling();
+        if next.as_ref().map(|v| v.id()) == Some(new_child.id()) {
+            next = new_child.next_sibling();
+        }
+
+        let old = self.remove_child(old_child)?;
+        match self.insert_before(new_child, next.as_ref()) {
+            Ok(_) => Ok(old),
+            Err(e) => {
+                self.insert_before(old, next.as_ref())?;
+                Err(e)
+            }
+        }
     }
 
     fn remove_child(&self, old_child: &XmlNode) -> error::Result<XmlNode>;
